@@ -1,0 +1,191 @@
+//go:build verif
+
+package slip10
+
+// Machine-checked contracts for this package (read by /verif/govc; comment-only, compiled only
+// with -tags verif). See /verif/DESIGN.md.
+//
+// The pluggable interfaces Curve and Key are abstract: an implementation is any deterministic one,
+// described by uninterpreted functions of the receiver and the 32-byte input (npkind/npkey for
+// Curve.NewPrivateKey, shkind/shkey for Key.Shift, kbarr for Key.Bytes, pubof, ispriv, hkarr/hklen
+// for Curve.HmacKey). A kind of 0 means success, any other value is the kind of the returned error;
+// invalid() is the kind of ErrInvalidKey, the only one that SLIP-0010 retries.
+//
+// Master key (SLIP-0010 "master key generation"): I = HMAC-SHA512(key = curve key, data = S); while
+// parse256(I_L) is not a valid key, I = HMAC-SHA512(curve key, I). mk_* are that retry chain, started
+// from the first I. Child key (CKDpriv / CKDpub): I = HMAC-SHA512(chain code, data); while shifting
+// by I_L gives an invalid key, I = HMAC-SHA512(chain code, 0x01 || I_R || ser32(i)); ck_* are that chain.
+
+//@ props C02 C08
+
+//@ decl hkarr(c Curve) []byte
+//@ decl hklen(c Curve) int
+//@ decl npkind(c Curve, b [32]byte) int
+//@ decl npkey(c Curve, b [32]byte) Key
+//@ decl kbarr(k Key) []byte
+//@ decl ispriv(k Key) bool
+//@ decl pubof(k Key) Key
+//@ decl shkind(k Key, b [32]byte) int
+//@ decl shkey(k Key, b [32]byte) Key
+
+// hardenedonly(k): k belongs to a curve for which SLIP-0010 defines hardened derivation only (ed25519)
+//@ decl hardenedonly(k Key) bool
+//@ spec invalid() int = errkind(ErrInvalidKey)
+
+//@ assume func (c Curve) HmacKey() (r []byte)
+//@   borrowed r
+//@   ensures contents(r) == hkarr(c) && len(r) == hklen(c) && hklen(c) >= 0
+//@ assume func (c Curve) NewPrivateKey(buf []byte) (k Key, err error)
+//@   requires len(buf) == 32
+//@   ensures isnil(err) == (npkind(c, buf[0:32]) == 0)
+//@   ensures implies(isnil(err), k == npkey(c, buf[0:32]) && !isnil(k))
+//@   ensures implies(!isnil(err), errkind(err) == npkind(c, buf[0:32]))
+//@ assume func (k Key) Bytes() (r []byte)
+//@   borrowed r
+//@   ensures len(r) == ite(ispriv(k), 32, 33)
+//@   ensures contents(r) == kbarr(k)
+//@ assume func (k Key) IsPrivate() (r bool)
+//@   ensures r == ispriv(k)
+//@ assume func (k Key) Public() (r Key)
+//@   ensures r == pubof(k) && !isnil(r) && !ispriv(r)
+//@ assume func (k Key) Shift(b []byte) (r Key, err error)
+//@   requires len(b) == 32
+//@   ensures isnil(err) == (shkind(k, b[0:32]) == 0)
+//@   ensures implies(isnil(err), r == shkey(k, b[0:32]) && !isnil(r))
+//@   ensures implies(!isnil(err), errkind(err) == shkind(k, b[0:32]))
+
+// ---- master key
+
+//@ spec mknext(c Curve, L [32]byte, R [32]byte) []byte = hashcat("hmac_sha512", key(hkarr(c)[0:hklen(c)]), L, R)
+//@ rec mk_kind(c Curve, L [32]byte, R [32]byte) int = ite(npkind(c, L) == invalid(), mk_kind(c, mknext(c, L, R)[0:32], mknext(c, L, R)[32:64]), npkind(c, L))
+//@ rec mk_key(c Curve, L [32]byte, R [32]byte) Key = ite(npkind(c, L) == invalid(), mk_key(c, mknext(c, L, R)[0:32], mknext(c, L, R)[32:64]), npkey(c, L))
+//@ rec mk_cc(c Curve, L [32]byte, R [32]byte, j int) byte = ite(npkind(c, L) == invalid(), mk_cc(c, mknext(c, L, R)[0:32], mknext(c, L, R)[32:64], j), R[j])
+//@ spec mkfirst(c Curve, s []byte) []byte = hashcat("hmac_sha512", key(hkarr(c)[0:hklen(c)]), s)
+
+//@ func NewMasterKey(seed []byte, curve Curve) (r *ExtendedKey, err error)
+//@   requires !isnil(curve)
+//@   loop step1 peel
+//@   loop step1 invariant len(seed) == 64 && len(inter) == 64
+//@   loop step1 invariant mk_kind(curve, mkfirst(curve, seed)[0:32], mkfirst(curve, seed)[32:64]) == mk_kind(curve, mkfirst(curve, old(seed))[0:32], mkfirst(curve, old(seed))[32:64])
+//@   loop step1 invariant mk_key(curve, mkfirst(curve, seed)[0:32], mkfirst(curve, seed)[32:64]) == mk_key(curve, mkfirst(curve, old(seed))[0:32], mkfirst(curve, old(seed))[32:64])
+//@   loop step1 invariant forall(j, 0, 32, mk_cc(curve, mkfirst(curve, seed)[0:32], mkfirst(curve, seed)[32:64], j) == mk_cc(curve, mkfirst(curve, old(seed))[0:32], mkfirst(curve, old(seed))[32:64], j))
+//@   panics  never
+//@   ensures isnil(err) == (mk_kind(curve, mkfirst(curve, seed)[0:32], mkfirst(curve, seed)[32:64]) == 0)
+//@   ensures implies(isnil(err), r != nil && !isnil(r.Key) && r.Key == mk_key(curve, mkfirst(curve, seed)[0:32], mkfirst(curve, seed)[32:64]) && isnil(r.parent) && len(r.ChainCode) == 32)
+//@   ensures implies(isnil(err), forall(j, 0, 32, r.ChainCode[j] == mk_cc(curve, mkfirst(curve, seed)[0:32], mkfirst(curve, seed)[32:64], j)))
+//@   ensures implies(!isnil(err), r == nil && errkind(err) == mk_kind(curve, mkfirst(curve, seed)[0:32], mkfirst(curve, seed)[32:64]))
+
+// ---- child key
+
+//@ spec ser32(i uint32, k int) byte = byte(i >> (8*(3-k)))
+//@ spec cknext(cc []byte, idx uint32, R [32]byte) []byte = hashcat("hmac_sha512", key(cc), byte(1), R, mkarray(4, k, ser32(idx, k)))
+//@ rec ck_kind(key Key, cc []byte, idx uint32, L [32]byte, R [32]byte) int = ite(shkind(key, L) == invalid(), ck_kind(key, cc, idx, cknext(cc, idx, R)[0:32], cknext(cc, idx, R)[32:64]), shkind(key, L))
+//@ rec ck_key(key Key, cc []byte, idx uint32, L [32]byte, R [32]byte) Key = ite(shkind(key, L) == invalid(), ck_key(key, cc, idx, cknext(cc, idx, R)[0:32], cknext(cc, idx, R)[32:64]), shkey(key, L))
+//@ rec ck_cc(key Key, cc []byte, idx uint32, L [32]byte, R [32]byte, j int) byte = ite(shkind(key, L) == invalid(), ck_cc(key, cc, idx, cknext(cc, idx, R)[0:32], cknext(cc, idx, R)[32:64], j), R[j])
+// first I: hardened 0x00 || ser256(k_par) || ser32(i); normal serP(point(k_par)) || ser32(i)
+//@ spec ckfh(key Key, cc []byte, idx uint32) []byte = hashcat("hmac_sha512", key(cc), byte(0), kbarr(key)[0:32], mkarray(4, k, ser32(idx, k)))
+//@ spec ckfn(key Key, cc []byte, idx uint32) []byte = hashcat("hmac_sha512", key(cc), kbarr(pubof(key))[0:33], mkarray(4, k, ser32(idx, k)))
+//@ spec ck0_kind(key Key, cc []byte, idx uint32) int = ite(idx >= 2147483648, ck_kind(key, cc, idx, ckfh(key, cc, idx)[0:32], ckfh(key, cc, idx)[32:64]), ck_kind(key, cc, idx, ckfn(key, cc, idx)[0:32], ckfn(key, cc, idx)[32:64]))
+//@ spec ck0_key(key Key, cc []byte, idx uint32) Key = ite(idx >= 2147483648, ck_key(key, cc, idx, ckfh(key, cc, idx)[0:32], ckfh(key, cc, idx)[32:64]), ck_key(key, cc, idx, ckfn(key, cc, idx)[0:32], ckfn(key, cc, idx)[32:64]))
+//@ spec ck0_cc(key Key, cc []byte, idx uint32, j int) byte = ite(idx >= 2147483648, ck_cc(key, cc, idx, ckfh(key, cc, idx)[0:32], ckfh(key, cc, idx)[32:64], j), ck_cc(key, cc, idx, ckfn(key, cc, idx)[0:32], ckfn(key, cc, idx)[32:64], j))
+
+//@ func uint32Bytes(i uint32) (r []byte)
+//@   panics  never
+//@   ensures len(r) == 4 && forall(k, 0, 4, r[k] == ser32(i, k))
+
+//@ func (e *ExtendedKey) IsPrivate() (r bool)
+//@   requires e != nil && !isnil(e.Key)
+//@   panics  never
+//@   ensures r == ispriv(e.Key)
+
+//@ func (e *ExtendedKey) DeriveChild(index uint32) (r *ExtendedKey, err error)
+//@   requires e != nil && !isnil(e.Key)
+//@   panics  never
+//@   loop step2 invariant len(inter) == 64
+//@   loop step2 invariant ck_kind(e.Key, e.ChainCode, index, inter[0:32], inter[32:64]) == ck0_kind(e.Key, e.ChainCode, index)
+//@   loop step2 invariant ck_key(e.Key, e.ChainCode, index, inter[0:32], inter[32:64]) == ck0_key(e.Key, e.ChainCode, index)
+//@   loop step2 invariant forall(j, 0, 32, ck_cc(e.Key, e.ChainCode, index, inter[0:32], inter[32:64], j) == ck0_cc(e.Key, e.ChainCode, index, j))
+//@   ensures implies(index >= 2147483648 && !ispriv(e.Key), isnil(r) && is(err, ErrHardenedChildPublicKey))
+//@   ensures implies(!(index >= 2147483648 && !ispriv(e.Key)), isnil(err) == (ck0_kind(e.Key, e.ChainCode, index) == 0))
+//@   ensures implies(isnil(err), r != nil && !isnil(r.Key) && r.Key == ck0_key(e.Key, e.ChainCode, index) && r.parent == e.Key && len(r.ChainCode) == 32)
+//@   ensures implies(isnil(err), forall(j, 0, 32, r.ChainCode[j] == ck0_cc(e.Key, e.ChainCode, index, j)))
+//@   ensures implies(!isnil(err) && !(index >= 2147483648 && !ispriv(e.Key)), isnil(r) && errkind(err) == ck0_kind(e.Key, e.ChainCode, index))
+//@   ensures implies(index < 2147483648 && hardenedonly(e.Key), !isnil(err))
+
+// ---- public view and fingerprint
+
+//@ func (e *ExtendedKey) Public() (r *ExtendedKey)
+//@   requires e != nil && !isnil(e.Key)
+//@   panics  never
+//@   ensures r != nil && r.Key == pubof(e.Key) && r.parent == e.parent && len(r.ChainCode) == len(e.ChainCode) && forall(j, 0, len(e.ChainCode), r.ChainCode[j] == e.ChainCode[j])
+
+//@ func hash160(data []byte) (r []byte)
+//@   panics  never
+//@   ensures len(r) == 20 && forall(j, 0, 20, r[j] == hashcat("ripemd160", sha256(data))[j])
+
+// fingerprint = first 4 bytes of RIPEMD160(SHA256(serP(parent public key))), zero for a master key
+//@ func (e *ExtendedKey) Fingerprint() (r []byte)
+//@   requires e != nil
+//@   panics  never
+//@   ensures len(r) == 4
+//@   ensures implies(isnil(e.parent), forall(j, 0, 4, r[j] == 0))
+//@   ensures implies(!isnil(e.parent), forall(j, 0, 4, r[j] == hashcat("ripemd160", sha256(kbarr(pubof(e.parent))[0:33]))[j]))
+
+// ---- C08: private and public derivation commute (non-hardened index)
+//
+// ckn_* are the retry chain with fuel n (-1: out of fuel). fuel_sound: whenever the fuelled chain
+// stops, the chain of the specification gives the same result. The theory ecshift states, for keys of
+// package elliptic (iselliptic), what the proved contracts of elliptic.PrivateKey.Shift and
+// elliptic.PublicKey.Shift together with lemma elliptic.shift_commute give: both shifts fail together,
+// with the same kind, and otherwise commute with taking the public key; taking the public key is
+// idempotent. ckd_commute: then the whole derivations commute, for every amount of fuel.
+//@ rec ckn_kind(key Key, cc []byte, idx uint32, L [32]byte, R [32]byte, n int) int = ite(n <= 0, -1, ite(shkind(key, L) == invalid(), ckn_kind(key, cc, idx, cknext(cc, idx, R)[0:32], cknext(cc, idx, R)[32:64], n-1), shkind(key, L)))
+//@ rec ckn_key(key Key, cc []byte, idx uint32, L [32]byte, R [32]byte, n int) Key = ite(n <= 0, key, ite(shkind(key, L) == invalid(), ckn_key(key, cc, idx, cknext(cc, idx, R)[0:32], cknext(cc, idx, R)[32:64], n-1), shkey(key, L)))
+//@ rec ckn_cc(key Key, cc []byte, idx uint32, L [32]byte, R [32]byte, n int, j int) byte = ite(n <= 0, byte(0), ite(shkind(key, L) == invalid(), ckn_cc(key, cc, idx, cknext(cc, idx, R)[0:32], cknext(cc, idx, R)[32:64], n-1, j), R[j]))
+
+//@ lemma fuel_sound(key Key, cc []byte, idx uint32, L [32]byte, R [32]byte, n int)
+//@   props C02 C08
+//@   induct n
+//@   ihsubst L = cknext(cc, idx, R)[0:32]
+//@   ihsubst R = cknext(cc, idx, R)[32:64]
+//@   requires 0 <= n && ckn_kind(key, cc, idx, L, R, n) != -1 && invalid() != -1
+//@   ensures  ck_kind(key, cc, idx, L, R) == ckn_kind(key, cc, idx, L, R, n)
+//@   ensures  ck_key(key, cc, idx, L, R) == ckn_key(key, cc, idx, L, R, n)
+//@   ensures  forall(j, 0, 32, ck_cc(key, cc, idx, L, R, j) == ckn_cc(key, cc, idx, L, R, n, j))
+
+//@ decl iselliptic(k Key) bool
+//@ axiom ec_shift_commute(k Key, L [32]byte)
+//@   theory ecshift
+//@   requires iselliptic(k) && ispriv(k)
+//@   ensures  shkind(pubof(k), L) == shkind(k, L) && implies(shkind(k, L) == 0, pubof(shkey(k, L)) == shkey(pubof(k), L))
+//@ axiom ec_public_idempotent(k Key)
+//@   theory ecshift
+//@   requires iselliptic(k)
+//@   ensures  pubof(pubof(k)) == pubof(k) && iselliptic(pubof(k))
+
+//@ lemma ckd_commute(k Key, cc []byte, idx uint32, L [32]byte, R [32]byte, n int)
+//@   props C08
+//@   theory ecshift
+//@   induct n
+//@   ihsubst L = cknext(cc, idx, R)[0:32]
+//@   ihsubst R = cknext(cc, idx, R)[32:64]
+//@   requires 0 <= n && iselliptic(k) && ispriv(k)
+//@   ensures  ckn_kind(pubof(k), cc, idx, L, R, n) == ckn_kind(k, cc, idx, L, R, n)
+//@   ensures  implies(ckn_kind(k, cc, idx, L, R, n) == 0, ckn_key(pubof(k), cc, idx, L, R, n) == pubof(ckn_key(k, cc, idx, L, R, n)))
+//@   ensures  forall(j, 0, 32, ckn_cc(pubof(k), cc, idx, L, R, n, j) == ckn_cc(k, cc, idx, L, R, n, j))
+
+// the first HMAC input of a non-hardened derivation is the same on both sides
+//@ lemma ckd_same_start(k Key, cc []byte, idx uint32, j int)
+//@   props C08
+//@   theory ecshift
+//@   requires iselliptic(k) && idx < 2147483648 && 0 <= j && j < 64
+//@   ensures  ckfn(pubof(k), cc, idx)[j] == ckfn(k, cc, idx)[j]
+
+// ---- path derivation (safety and error reporting; the result is the left fold of DeriveChild over the
+// path by construction of the loop, which is not restated as a specification function)
+//@ func DeriveKeyFromPath(seed []byte, curve Curve, path []uint32) (r *ExtendedKey, err error)
+//@   requires !isnil(curve)
+//@   panics  never
+//@   loop 1 invariant key != nil && !isnil(key.Key)
+//@   ensures isnil(err) == (r != nil)
+//@   ensures implies(isnil(err), !isnil(r.Key))
